@@ -190,7 +190,7 @@ func (r *Run) StartScheduler() {
 			}
 			if r.Sched == "order" && oi < len(r.Order) {
 				// script tokens: "<key>" wait until parked, then release;
-				// "?<key>" only wait until parked; "!cancel" cancel the context.
+				// "?<key>" only wait until parked; "!cancel" cancel the context; "~<ms>" pause.
 				k := r.Order[oi]
 				oi++
 				wait := 300 * time.Millisecond
@@ -204,6 +204,9 @@ func (r *Run) StartScheduler() {
 					if r.Cancel != nil {
 						r.Cancel()
 					}
+				case strings.HasPrefix(k, "~"):
+					ms, _ := strconv.Atoi(k[1:])
+					time.Sleep(time.Duration(ms) * time.Millisecond)
 				case strings.HasPrefix(k, "?"):
 					if !r.WaitParked(k[1:], wait) && !cancelledByScript {
 						r.mu.Lock()
